@@ -1178,6 +1178,11 @@ def run_cases(run, cases, unit, model, scratch):
     return total
 
 
+def setup():
+    V.extract_model("C19", EXTRACT, DRIVER, ["ocaml/fops.ml"])
+    V.build_prog("c19unit", PROGS["c19unit"])
+
+
 def check(run):
     st = V.standard_start(run, PROP, EXTRACT, DRIVER, PROGS)
     if st is None:
